@@ -180,6 +180,8 @@ class C3Harness(Harness):
             if r[0] == "arr":
                 for k in range(r[2]):
                     inp[f"{n}.{k}"] = self._scalar(mk, f"{n}.{k}", r[1])
+            elif r[0] == "struct":
+                pass        # layout is the implementation's choice: struct globals are written before they are read
             else:
                 inp[n] = self._scalar(mk, n, T)
         return inp
@@ -239,6 +241,8 @@ class C3Harness(Harness):
                 ts = [self._term(r[1], i[f"{n}.{k}"]) for k in range(r[2])]
                 ginit[n] = ts
                 irinit["m_" + n] = [b for t in ts for b in self._bytes(self._bits(r[1], t))]
+            elif r[0] == "struct":
+                pass
             else:
                 t = self._term(T, i[n])
                 ginit[n] = t
@@ -274,6 +278,8 @@ class C3Harness(Harness):
         conds = []
         for T, n, _ in self.prog.get("globals", ()):
             v = ref.global_value(n)
+            if v is None:
+                continue
             r = self.types.resolve(T)
             ts = [self._bits(r[1], x) for x in v] if r[0] == "arr" else [self._bits(T, v)]
             wantb = [b for t in ts for b in self._bytes(t)]
